@@ -290,11 +290,48 @@ def first_index(r: Result, first_name: str) -> Optional[int]:
         m = cxx._BRANCH.match(l)
         if m:
             v = m.group("v")
-            pre = "_" + first_name
+            # cpp_vars.unique_name: characters that cannot be part of a C++ identifier become "_"
+            pre = "_" + "".join(c if (c.isascii() and (c.isalnum() or c == "_")) else "_" for c in first_name)
             if v.startswith(pre) and v[len(pre):].isdigit():
                 return int(v[len(pre):])
             return None
     return None
+
+
+_SIMPLE_ESC = {"n": "\n", "t": "\t", "r": "\r", "a": "\a", "b": "\b", "f": "\f", "v": "\v", "\\": "\\", '"': '"', "'": "'", "?": "?"}
+
+
+def cxx_unescape(text: str) -> str:
+    """The value of the C++ string literal whose body (between the quotes) is `text`: simple, octal and hex escapes; the bytes
+    are read as UTF-8 (what ROOT sees).  Unknown escapes are kept verbatim, so that they show up as a difference."""
+    out = bytearray()
+    i = 0
+    while i < len(text):
+        c = text[i]
+        if c != "\\" or i + 1 >= len(text):
+            out += c.encode("utf-8")
+            i += 1
+            continue
+        d = text[i + 1]
+        if d in _SIMPLE_ESC:
+            out += _SIMPLE_ESC[d].encode()
+            i += 2
+        elif d in "01234567":
+            j = i + 1
+            while j < len(text) and j < i + 4 and text[j] in "01234567":
+                j += 1
+            out.append(int(text[i + 1:j], 8) & 0xFF)
+            i = j
+        elif d == "x":
+            j = i + 2
+            while j < len(text) and text[j] in "0123456789abcdefABCDEF":
+                j += 1
+            out.append(int(text[i + 2:j] or "0", 16) & 0xFF)
+            i = j
+        else:
+            out += (c + d).encode("utf-8")
+            i += 2
+    return out.decode("utf-8", errors="replace")
 
 
 def oracle(case: Case, r: Result, uni, evs, model) -> Optional[Tuple[str, str]]:
@@ -309,7 +346,7 @@ def oracle(case: Case, r: Result, uni, evs, model) -> Optional[Tuple[str, str]]:
     if r.prog is None:
         return ("c03:unparsed", f"emitted package outside the IR grammar: {r.note}")
     members, tree, branches, extra, body = r.prog
-    bn = [b[0] for b in branches]
+    bn = [cxx_unescape(b[0]) for b in branches]
     if bn != names:
         return ("c03:branch-names" if branches else "c03:no-branches", f"booked branch names {bn} != names of the final expression {names}")
     bv = [b[1] for b in branches]
@@ -418,6 +455,10 @@ def gen_cases(rng: random.Random, tier: str) -> List[Case]:
                     cases.append(Case(be, scope, cols, "explicit", names=nm, tree=rng.choice(["mytree", "t", "atlas_xaod_tree"])))
                     # tree names that are not identifiers: the job must book, fill and report exactly the given name
                     cases.append(Case(be, scope, cols, "explicit", names=nm, tree=rng.choice(["my tree", "analysis/nominal", " padded ", "t-1.x", "a  b", "Tree:1", "x/y/z"])))
+                    # column labels that are not identifiers (ROOT branch names may be any text: "jet.pt", "n-jets"): the branch keeps the
+                    # label, its storage is a class member with a C++ name
+                    odd = ["jet.pt", "n-jets", "n jets", "class", "p\u00e9", "\u03b7", "a/b", "x:y", "_", "9lives", "d\"q"]
+                    cases.append(Case(be, scope, cols, "explicit", names=rng.sample(odd, n), tree="mytree"))
                     k = rng.choice(["few", "many", "str", "dup", "empty", "digit"])
                     if k == "few":
                         names: Any = nm[:-1]
